@@ -5,6 +5,7 @@ set -e
 cd "$(dirname "$0")"
 export GOFLAGS=-mod=mod GOPROXY=off
 mkdir -p .build evidence replays
+tools/mkcoqproject.sh
 ( cd coq && coq_makefile -f _CoqProject -o Makefile.coq >/dev/null && timeout 3000 make -f Makefile.coq -j"$(nproc)" ) 2>&1 | tail -5
 cp /repo/go.sum harness/go.sum 2>/dev/null || true
 ( cd harness && for d in cmd/*/; do n=$(basename $d); mkdir -p ../.build/warm; go build -tags verif -o ../.build/warm/$n ./cmd/$n || echo "warn: $n did not build"; done )
